@@ -170,12 +170,25 @@ pub struct Req {
     pub timed: Option<(u16, u64)>,
     pub opcode: OpCode,
     pub payload: Vec<u8>,
-    /// events emitted on the device before the request: (endpoint, cluster, event, fabric index or 0)
-    pub emit: Vec<(u16, u32, u32, u8)>,
+    /// events emitted on the device before the request: (endpoint, cluster, event, `FabricIndex` field)
+    pub emit: Vec<(u16, u32, u32, FabF)>,
     /// follow-up chunks of a chunked Write action (the first message then carries MoreChunkedMessages):
     /// `(delay_ms, payload)` — the virtual clock is advanced by `delay_ms` after the answer to the
     /// previous chunk, then the chunk is sent on the same exchange
     pub more: Vec<(u64, Vec<u8>)>,
+}
+
+/// the `FabricIndex` field (context tag 254) put into an emitted event's payload
+#[derive(Clone, Copy, Debug, PartialEq)]
+pub enum FabF {
+    /// no field: the event is not fabric-sensitive
+    Absent,
+    /// an 8-bit fabric index
+    Idx(u8),
+    /// the field is null
+    Null,
+    /// the field is a 16-bit integer (not readable as `u8`)
+    Wide,
 }
 
 pub struct Answer {
@@ -490,8 +503,11 @@ pub fn run_request(device: &Matter<'_>, env: &Env, req: &Req) -> Answer {
         let fab = *fab;
         let _ = state.events().push(*ep, *cl, *ev, EventPriority::Info, &kv, |mut tw| {
             tw.start_struct(&EVENT_DATA_TAG)?;
-            if fab != 0 {
-                tw.u8(&TLVTag::Context(254), fab)?;
+            match fab {
+                FabF::Absent => {}
+                FabF::Idx(f) => tw.u8(&TLVTag::Context(254), f)?,
+                FabF::Null => tw.null(&TLVTag::Context(254))?,
+                FabF::Wide => tw.u16(&TLVTag::Context(254), 0x0102)?,
             }
             tw.end_container()
         });
